@@ -168,12 +168,14 @@ def run_sampling_case(ctx, res, seed):
     res.case(('sampling', seed), True, {'seed': seed, 'specs': specs})
 
 
-def run_compression_case(ctx, res, seed):
+def run_compression_case(ctx, res, seed, rank=None):
     """dataset conversion round trip with SVD-compressed field quantities"""
     rng = random.Random(seed)
     ngrid, nsamp = rng.choice([20, 50]), 40
     nfields = rng.choice([1, 2, 3])
-    rank = rng.randint(1, 4)
+    rank = rank or rng.choice([1, 2, 3, 4, 4, 11, 13])   # > 10 latent coefficients: names LATENT10.. sort before LATENT2 as strings
+    if rank > 4:
+        ngrid = 50
     grid = np.linspace(-1, 1, ngrid)
     rs = np.random.RandomState(seed % 2 ** 31)
     coef = rs.rand(nsamp, rank)
@@ -187,7 +189,7 @@ def run_compression_case(ctx, res, seed):
     var = Variable('p', compression=comp, norm=norm)
     P = comp.projection_matrix
     ortho = float(np.max(np.abs(P.T @ P - np.eye(P.shape[1]))))
-    info = {'seed': seed, 'rank': rank, 'fields': nfields, 'grid': ngrid, 'norm': norm, 'PtP_minus_I': ortho}
+    info = {'svd': seed, 'rank': rank, 'fields': nfields, 'grid': ngrid, 'norm': norm, 'PtP_minus_I': ortho}
     if ortho > 1e-10:
         res.failures.append({'kind': 'projection-columns-not-orthonormal', 'input': info}); return
     from amisc.variable import VariableList
@@ -197,6 +199,17 @@ def run_compression_case(ctx, res, seed):
     lat = {f'p{LATENT_STR_ID}{i}': rs.randn(7) for i in range(rank)}
     model_ds, coords = to_model_dataset(dict(lat), vl, del_latent=True)
     back, names = to_surrogate_dataset(dict(model_ds), vl, del_fields=True, **coords)
+    # independent oracle: the model-form fields are the reconstruction  P @ latent  (de-normalised), coefficient i on column i
+    latent = np.stack([lat[f'p{LATENT_STR_ID}{i}'] for i in range(rank)], axis=-1)          # (7, rank)
+    direct = var.denormalize((P @ latent[..., np.newaxis])[..., 0]) if norm else (P @ latent[..., np.newaxis])[..., 0]
+    direct = direct.reshape((7, ngrid, nfields))
+    for f, fn in enumerate(fields):
+        got_f = np.asarray(model_ds.get(fn))
+        if got_f.shape != direct[..., f].shape or not np.allclose(got_f, direct[..., f], rtol=1e-9, atol=1e-10):
+            res.failures.append({'kind': 'model-form-field-is-not-the-reconstruction-of-its-latent-coefficients',
+                                 'input': {**info, 'field': fn}, 'observed': 'max abs diff %.3e' % (
+                                     float(np.max(np.abs(got_f - direct[..., f]))) if got_f.shape == direct[..., f].shape else np.nan)})
+            break
     for k, v in lat.items():
         if k not in back or not np.allclose(back[k], v, rtol=1e-9, atol=1e-10):
             res.failures.append({'kind': 'latent-coefficients-not-recovered-by-dataset-round-trip',
@@ -240,7 +253,7 @@ def run(ctx: core.Ctx, only=None) -> core.Result:
     res = core.Result()
     res.rule = ('variables with distributions U/N/LU/LN/none, domains of several locations/widths, chains of 1-3 transforms '
                 '(linear, minmax incl. deferred bounds, zscore incl. deferred Normal arguments, log/log10/log2): round trips, '
-                'normalised domain, Lean chain model; System.sample_inputs with and without pdf; SVD compression (rank 1-4, '
+                'normalised domain, Lean chain model; System.sample_inputs with and without pdf; SVD compression (rank 1-13, '
                 '1-3 fields, with/without field normalisation) dataset round trip; time stability of stored normalised inputs '
                 'across a domain update. non-trivial = chain of >= 2 transforms or a system/compression/time case.')
     lines, post = [], []
@@ -249,7 +262,7 @@ def run(ctx: core.Ctx, only=None) -> core.Result:
     else:
         items = core.corpus_cases('C16') + [{'spec': gen_valid_var(ctx.rng)} for _ in range(ctx.scale(60, 800))] + \
             [{'sampling': ctx.rng.randrange(10 ** 6)} for _ in range(ctx.scale(4, 40))] + \
-            [{'svd': ctx.rng.randrange(10 ** 6)} for _ in range(ctx.scale(4, 40))] + \
+            [{'svd': ctx.rng.randrange(10 ** 6), 'rank': [11, 2, 13, 4, 1, 3][k % 6]} for k in range(ctx.scale(4, 40))] + \
             [{'time': s} for s in range(ctx.scale(4, 8))]
     for it in items:
         with core.guarded(res, 'scenario-raised', it):
@@ -258,7 +271,7 @@ def run(ctx: core.Ctx, only=None) -> core.Result:
             elif 'sampling' in it:
                 run_sampling_case(ctx, res, it['sampling'])
             elif 'svd' in it:
-                run_compression_case(ctx, res, it['svd'])
+                run_compression_case(ctx, res, it['svd'], it.get('rank'))
             elif 'time' in it or 'norm' in it:
                 run_time_stability_case(ctx, res, it.get('time', it.get('seed', 0)))
     out = core.try_driver(lines, res, 'Amisc.normalize / denormalize (generated transform formulas)')
